@@ -55,6 +55,75 @@ type tagErr struct {
 
 func (t tagErr) Error() string { return fmt.Sprintf("attempt %d failed (%s)", t.slot, t.nonce) }
 
+// The error VALUE a failing attempt returns (kind KError).  On the unchanged code every one of
+// them is an ordinary failure of that attempt; the budget and the parent context are alive.
+const (
+	fPlain            = iota // harness-tagged plain error
+	fCanceled                // context.Canceled itself
+	fDeadline                // context.DeadlineExceeded itself
+	fWrappedCanceled         // fmt.Errorf("...: %w", context.Canceled)
+	fWrappedDeadline         // fmt.Errorf("...: %w", context.DeadlineExceeded)
+	fURLTimeout              // *url.Error around a timeout error, as net/http returns for Client.Timeout
+	fTimeoutInterface        // custom error with Timeout() bool = true
+	nFlavors
+)
+
+var flavorNames = []string{"plain", "context.Canceled", "context.DeadlineExceeded", "wrapped context.Canceled",
+	"wrapped context.DeadlineExceeded", "*url.Error(Client.Timeout)", "Timeout()=true"}
+
+// what net/http puts inside the *url.Error when http.Client.Timeout fires
+type httpTimeoutErr struct{ msg string }
+
+func (e *httpTimeoutErr) Error() string   { return e.msg }
+func (e *httpTimeoutErr) Timeout() bool   { return true }
+func (e *httpTimeoutErr) Temporary() bool { return true }
+func (e *httpTimeoutErr) Is(t error) bool { return t == context.DeadlineExceeded }
+
+type timeoutIfaceErr struct{ slot int }
+
+func (e *timeoutIfaceErr) Error() string { return fmt.Sprintf("attempt %d: i/o timeout", e.slot) }
+func (e *timeoutIfaceErr) Timeout() bool { return true }
+
+func makeErr(flavor, slot int, nonce string) error {
+	switch flavor {
+	case fCanceled:
+		return context.Canceled
+	case fDeadline:
+		return context.DeadlineExceeded
+	case fWrappedCanceled:
+		return fmt.Errorf("attempt %d (%s) sub-request: %w", slot, nonce, context.Canceled)
+	case fWrappedDeadline:
+		return fmt.Errorf("attempt %d (%s) backend client: %w", slot, nonce, context.DeadlineExceeded)
+	case fURLTimeout:
+		return &url.Error{Op: "Get", URL: fmt.Sprintf("http://backend-%d/x", slot),
+			Err: &httpTimeoutErr{"context deadline exceeded (Client.Timeout exceeded while awaiting headers)"}}
+	case fTimeoutInterface:
+		return &timeoutIfaceErr{slot}
+	}
+	return tagErr{slot, nonce}
+}
+
+// errValues: per slot, the error value a KError attempt returns (nil for the other kinds)
+func errValues(kinds []int, flavors []int, nonce string) []error {
+	vs := make([]error, len(kinds))
+	for i, k := range kinds {
+		if k == kError {
+			vs[i] = makeErr(flavors[i], i, nonce)
+		}
+	}
+	return vs
+}
+
+// whoseError: the slot whose own error value err is (identity), -1 if none
+func whoseError(err error, vals []error) int {
+	for i, v := range vals {
+		if v != nil && err == v {
+			return i
+		}
+	}
+	return -1
+}
+
 // ---------------------------------------------------------------------------------------
 // requests
 
@@ -368,6 +437,7 @@ type runCfg struct {
 	timeout  time.Duration
 	inst     *instance // nil: a fresh middleware instance for this run
 	scribble bool      // attempts record one after the other, each then writes junk into ITS request
+	errVals  []error   // per slot: the error value of a KError attempt
 }
 
 // instance: ONE middleware instance serving many calls (instance-reuse streams).  The
@@ -460,7 +530,7 @@ func runOnce(n int, kinds []int, order []int, parentAfter int, rs reqSpec, nonce
 		case kIncomplete:
 			return &proxy.Response{Data: map[string]interface{}{"who": i, "nonce": nonce}, IsComplete: false}, nil
 		case kError:
-			return nil, tagErr{i, nonce}
+			return nil, rc.errVals[i]
 		}
 		return nil, nil
 	}
@@ -577,7 +647,7 @@ func runOnce(n int, kinds []int, order []int, parentAfter int, rs reqSpec, nonce
 
 // runFree: one call through a shared instance whose attempts answer at once (no gates, the
 // arrival order is whatever the scheduler makes it); used by the concurrent-reuse stream.
-func runFree(inst *instance, kinds []int, rs reqSpec, nonce string) (obs observation) {
+func runFree(inst *instance, kinds []int, errVals []error, rs reqSpec, nonce string) (obs observation) {
 	n := len(kinds)
 	slot := make(chan int, n+8)
 	for i := 0; i < n+8; i++ {
@@ -605,7 +675,7 @@ func runFree(inst *instance, kinds []int, rs reqSpec, nonce string) (obs observa
 		case kIncomplete:
 			return &proxy.Response{Data: map[string]interface{}{"who": i, "nonce": nonce}, IsComplete: false}, nil
 		case kError:
-			return nil, tagErr{i, nonce}
+			return nil, errVals[i]
 		}
 		return nil, nil
 	}
@@ -662,7 +732,7 @@ func runFree(inst *instance, kinds []int, rs reqSpec, nonce string) (obs observa
 }
 
 // run with validation: repeat tainted runs with longer budgets; confirm watchdog hits once
-func runScenario(inst *instance, scribble bool, n int, kinds []int, order []int, parentAfter int, rs reqSpec, nonce string, stats map[string]int) observation {
+func runScenario(inst *instance, scribble bool, n int, kinds []int, errVals []error, order []int, parentAfter int, rs reqSpec, nonce string, stats map[string]int) observation {
 	hasSilent := false
 	for _, k := range kinds {
 		if k == kSilent {
@@ -680,7 +750,7 @@ func runScenario(inst *instance, scribble bool, n int, kinds []int, order []int,
 		if hasSilent {
 			wdog += timeout // such runs legitimately last as long as the budget
 		}
-		obs, tainted := runOnce(n, kinds, order, parentAfter, rs, nonce, runCfg{watchdog: wdog, timeout: timeout, inst: inst, scribble: scribble})
+		obs, tainted := runOnce(n, kinds, order, parentAfter, rs, nonce, runCfg{watchdog: wdog, timeout: timeout, inst: inst, scribble: scribble, errVals: errVals})
 		if obs.hang != "" {
 			// a watchdog is only believed when it fires twice, the second time after a minute
 			hangs++
@@ -775,7 +845,7 @@ func main() {
 
 	// render: the Gallina term and the human form of one observed run; proj: the part of the
 	// observation that is the same for every run of the same input without interference
-	render := func(stream string, free bool, n int, kinds []int, order []int, parentAfter int, rs reqSpec, nonce string, obs observation) (term string, js map[string]interface{}, proj string) {
+	render := func(stream string, free bool, n int, kinds []int, flavors []int, errVals []error, order []int, parentAfter int, rs reqSpec, nonce string, obs observation) (term string, js map[string]interface{}, proj string) {
 		respCoq, respJS := "None", interface{}(nil)
 		if obs.resp != nil {
 			id := 9999
@@ -794,6 +864,10 @@ func main() {
 		} else if obs.err != nil {
 			var te tagErr
 			switch {
+			case whoseError(obs.err, errVals) >= 0:
+				// the very error value an attempt of this call returned, whatever it wraps
+				errCoq = emit.Some(emit.App("EAttempt", emit.N(uint64(whoseError(obs.err, errVals)))))
+				proj += "|EAttempt"
 			case errors.As(obs.err, &te) && te.nonce == nonce:
 				errCoq = emit.Some(emit.App("EAttempt", emit.N(uint64(te.slot))))
 				proj += "|EAttempt"
@@ -813,8 +887,12 @@ func main() {
 			errJS = obs.err.Error()
 		}
 		ks := make([]string, len(kinds))
+		fl := make([]interface{}, len(kinds))
 		for i, k := range kinds {
 			ks[i] = kindNames[k]
+			if k == kError {
+				fl[i] = flavorNames[flavors[i]]
+			}
 		}
 		parentCoq := "None"
 		if parentAfter >= 0 {
@@ -843,7 +921,7 @@ func main() {
 		}
 		js = map[string]interface{}{
 			"stream": stream, "n": n, "kinds": ks, "order": order, "parent_cancelled_after": parentAfter,
-			"request": in.js(), "request_variant": rs.name, "order_imposed": !free,
+			"request": in.js(), "request_variant": rs.name, "order_imposed": !free, "error_values": fl,
 			"observed": map[string]interface{}{"response": respJS, "error": errJS, "attempts_started": obs.started, "seen": seenJS},
 		}
 		return term, js, proj
@@ -875,6 +953,7 @@ func main() {
 	}
 
 	scribble := false
+	forceFlavor := -1
 	emitOn := func(inst *instance, stream string, n int, kinds []int, order []int, parentAfter int, ri int) {
 		if aborted {
 			return
@@ -884,7 +963,20 @@ func main() {
 		if inst != nil {
 			rs = withRun(rs, nonce)
 		}
-		obs := runScenario(inst, scribble, n, kinds, order, parentAfter, rs, nonce, stats)
+		// error values of the failing attempts: forced (corpus) or rotated over the case index
+		flavors := make([]int, len(kinds))
+		for i, k := range kinds {
+			if k == kError {
+				if forceFlavor >= 0 {
+					flavors[i] = forceFlavor
+				} else {
+					flavors[i] = (w.N() + 2*i) % nFlavors
+				}
+				w.Count("error_value:" + flavorNames[flavors[i]])
+			}
+		}
+		errVals := errValues(kinds, flavors, nonce)
+		obs := runScenario(inst, scribble, n, kinds, errVals, order, parentAfter, rs, nonce, stats)
 		if stats["watchdog_confirmed"] >= 2 {
 			aborted = true
 		}
@@ -895,7 +987,7 @@ func main() {
 				"", fmt.Sprintf("skipped|%d|%v|%v|%d|%s", n, kinds, order, parentAfter, rs.name), false)
 			return
 		}
-		term, js, _ := render(stream, false, n, kinds, order, parentAfter, rs, nonce, obs)
+		term, js, _ := render(stream, false, n, kinds, flavors, errVals, order, parentAfter, rs, nonce, obs)
 		nontrivial := count(stream, n, kinds, rs, obs)
 		canon := fmt.Sprintf("%s|%d|%v|%v|%d|%s", stream, n, kinds, order, parentAfter, rs.name)
 		w.Add(term, js, "", canon, nontrivial)
@@ -937,6 +1029,16 @@ func main() {
 	for _, c := range corpus {
 		emitCase("corpus", len(c.kinds), c.kinds, c.order, c.parent, nextReq())
 	}
+	// a failing attempt whose error VALUE is (or wraps, or looks like) a context/timeout error
+	// while the budget and the parent are alive, dequeued BEFORE a sibling's complete answer:
+	// an ordinary failure - the complete answer must still be awaited and returned
+	for f := 1; f < nFlavors; f++ {
+		forceFlavor = f
+		emitCase("corpus-error-values", 2, []int{kError, kComplete}, []int{0, 1}, -1, nextReq())
+		emitCase("corpus-error-values", 3, []int{kIncomplete, kError, kComplete}, []int{0, 1, 2}, -1, nextReq())
+		emitCase("corpus-error-values", 3, []int{kError, kError, kIncomplete}, []int{0, 1, 2}, -1, nextReq())
+	}
+	forceFlavor = -1
 
 	// ---- instance reuse, sequential: ONE middleware instance serves a sequence of calls that
 	// differ in outcomes, arrival order and request (state kept from one call to the next -
@@ -960,6 +1062,14 @@ func main() {
 		{[]int{kIncomplete, kIncomplete}, []int{1, 0}, -1}, // no error must survive from step 3
 		{[]int{kError, kError}, []int{0, 1}, -1},           // no response must survive from step 5
 	})
+	forceFlavor = fWrappedDeadline
+	runSequence("reuse-seq-corpus", 2, []step{
+		{[]int{kError, kComplete}, []int{0, 1}, -1}, // context-looking failure first, complete second
+		{[]int{kComplete, kError}, []int{0, 1}, -1},
+		{[]int{kError, kIncomplete}, []int{0, 1}, -1},
+		{[]int{kError, kComplete}, []int{0, 1}, -1},
+	})
+	forceFlavor = -1
 	runSequence("reuse-seq-corpus", 3, []step{
 		{[]int{kIncomplete, kError, kComplete}, []int{0, 1, 2}, -1},
 		{[]int{kError, kEmpty, kError}, []int{0, 1, 2}, -1},
@@ -1103,8 +1213,13 @@ func main() {
 					in := inputs[ii]
 					nonce := fmt.Sprintf("f%d-%d-%d", ii, g, it)
 					rs := withRun(cat[in.ri%len(cat)], nonce)
-					obs := runFree(inst, in.kinds, rs, nonce)
-					term, js, proj := render("reuse-concurrent", true, 3, in.kinds, []int{0, 1, 2}, -1, rs, nonce, obs)
+					flavors := make([]int, len(in.kinds))
+					for i := range flavors {
+						flavors[i] = (ii + g + it + 2*i) % nFlavors
+					}
+					errVals := errValues(in.kinds, flavors, nonce)
+					obs := runFree(inst, in.kinds, errVals, rs, nonce)
+					term, js, proj := render("reuse-concurrent", true, 3, in.kinds, flavors, errVals, []int{0, 1, 2}, -1, rs, nonce, obs)
 					key := fmt.Sprintf("%02d|%s", ii, proj)
 					fmu.Lock()
 					if _, ok := distinct[key]; !ok {
@@ -1195,5 +1310,5 @@ func main() {
 	}
 	w.Meta["request_catalogue"] = len(cat)
 	w.Meta["aborted_after_confirmed_watchdogs"] = aborted
-	w.Close(fmt.Sprintf("corpus; every outcome vector over {complete, incomplete, error, empty, silent}^N x every arrival order of the non-silent attempts for N=2..%d (silent attempts answer when the budget expires); parent context cancelled after k dequeues for N=2..3 (quick: a third of N=3); random N=4 (quick) and N=5..9; scribbling attempts (each writes junk into the maps of its own request after recording it; 8 request variants incl. body-less, caller's request compared afterwards); instance reuse: one middleware instance serving sequences of 3-6 calls with different outcomes/orders/requests (2 corpus sequences + random ones) and 12 goroutines calling one instance at the same time (distinct (input, observation) pairs); %d request variants (method/url/path/query/params/headers x 10 bodies incl. nil, empty, binary, 64 KiB, 200 KiB x 3 reader behaviours) assigned round-robin to all scenarios; nontrivial = not all attempts complete", maxN, len(cat)), true)
+	w.Close(fmt.Sprintf("corpus; every outcome vector over {complete, incomplete, error, empty, silent}^N x every arrival order of the non-silent attempts for N=2..%d (silent attempts answer when the budget expires); parent context cancelled after k dequeues for N=2..3 (quick: a third of N=3); random N=4 (quick) and N=5..9; failing attempts return rotating error VALUES (plain, context.Canceled/DeadlineExceeded bare and wrapped, *url.Error around a Client.Timeout error, Timeout()=true) while budget and parent are alive; scribbling attempts (each writes junk into the maps of its own request after recording it; 8 request variants incl. body-less, caller's request compared afterwards); instance reuse: one middleware instance serving sequences of 3-6 calls with different outcomes/orders/requests (2 corpus sequences + random ones) and 12 goroutines calling one instance at the same time (distinct (input, observation) pairs); %d request variants (method/url/path/query/params/headers x 10 bodies incl. nil, empty, binary, 64 KiB, 200 KiB x 3 reader behaviours) assigned round-robin to all scenarios; nontrivial = not all attempts complete", maxN, len(cat)), true)
 }
